@@ -207,6 +207,8 @@ class Env:
         # None | "all" | "nocircuit": vary the python types of raised exceptions (incl. library
         # exception types), of abort requests (the public alias) and of results (falsy ones)
         self.flavours: str | None = None
+        self.none_pending = None      # the scripted result object that the operation returned as None
+        self.none_result = None       # ... while it describes the latest classified failure
 
     # ------------------------------------------------------------------ helpers
     def now(self) -> int:
@@ -233,6 +235,7 @@ class Env:
         self.values = []
         self.sleeper_exc = None
         self.bsleep_exc = None
+        self.none_pending = self.none_result = None
 
     # ------------------------------------------------------------------ operation
     def op(self) -> Any:
@@ -244,6 +247,7 @@ class Env:
         self.trace.append({"e": "invoke", "n": n, "t": t, "out": sc["out"], "k": sc["k"],
                            "ra": sc["ra"], "dur": sc["dur"], "t1": self.now()})
         out = sc["out"]
+        self.none_pending = None
         vcls = FalsyValue if self.flavours and n % 2 == 1 else Value
         if out == "ok":
             v = vcls(n, None, NONE)
@@ -252,6 +256,13 @@ class Env:
         if out == "res":
             v = vcls(n, sc["k"], sc["ra"])
             self.values.append(v)
+            if self.flavours and n % 3 == 0 and not self.cfg.get("abort"):
+                # (not with abort polls: an abort between classification and processing makes it
+                # ambiguous which failure a None in last_result stands for)
+                # the failing result is None itself ("poll until not None"): the result classifier
+                # maps it like any other value; identity None <-> this attempt until the next one
+                self.none_pending = v
+                return None
             return v
         if out == "excsame" and self.raised and isinstance(self.raised[-1], OpError):
             exc: BaseException = self.raised[-1]          # the very same object again
@@ -314,11 +325,14 @@ class Env:
         else:
             k, ra = "UNKNOWN", NONE
         dur = (self._next("classify") or {}).get("dur", 0)
+        self.none_result = None           # this failure now describes the run
         self.trace.append({"e": "classify", "n": n, "k": k, "ra": ra, "dur": dur, "t": self.now()})
         self.clock.advance(dur)                 # time passes inside the classifier
         return self._classification(k, ra)
 
     def rclassifier(self, value: Any):
+        if value is None and getattr(self, "none_pending", None) is not None:
+            value = self.none_pending
         self._fault("rclassifier", attempt=self._val_id(value))
         mine = any(value is v for v in self.values)
         n = value.attempt if mine else NOT_OURS
@@ -327,7 +341,10 @@ class Env:
             self.trace.append({"e": "rclassify", "n": n, "k": "none", "ra": NONE, "dur": dur,
                                "t": self.now()})
             self.clock.advance(dur)
+            self.none_result = None
             return None
+        # this failure now describes the run; None stands for it if that is what was returned
+        self.none_result = value if value is getattr(self, "none_pending", None) else None
         self.trace.append({"e": "rclassify", "n": n, "k": value.klass, "ra": value.ra, "dur": dur,
                            "t": self.now()})
         self.clock.advance(dur)
@@ -415,9 +432,11 @@ class Env:
             self.trace.append({"e": "fault", "site": site, "kind": f["kind"]})
             raise make_exc(f["kind"])
 
-    def astart(self, ctx) -> None:
+    def astart(self, ctx):
         self.trace.append({"e": "astart", "n": ctx.attempt, "t": self.now()})
         self._fault("astart")
+        if self.flavours:
+            return "abort"                # whatever a hook returns is of no consequence
 
     def aend(self, ctx) -> None:
         self.trace.append({"e": "aend", "n": ctx.attempt,
@@ -449,10 +468,14 @@ class Env:
 
     def before_sleep(self, ctx, sleep_s):
         self._bsleep_common(sleep_s)
+        if self.flavours:
+            return sleep_s + 7.0          # whatever a hook returns is of no consequence
 
     async def abefore_sleep(self, ctx, sleep_s):
         await _Suspend("bsleep")
         self._bsleep_common(sleep_s)
+        if self.flavours:
+            return sleep_s + 7.0
 
     # decoys: policy-level callbacks that must never run when call-level ones are given
     def decoy_handler(self, ctx, sleep_s):
@@ -485,12 +508,16 @@ class Env:
         self.clock.advance(d)
         self.trace.append({"e": "sleep", "s": st, **_us(s), "adv": adv, "t": t, "t1": self.now()})
 
-    def sleeper(self, s: float) -> None:
+    def sleeper(self, s: float):
         self._sleep_common(s)
+        if self.flavours:
+            return 0.0
 
-    async def asleeper(self, s: float) -> None:
+    async def asleeper(self, s: float):
         await _Suspend("sleep")
         self._sleep_common(s)
+        if self.flavours:
+            return 0.0
 
     # ------------------------------------------------------------------ observability sinks
     def _tags(self, tags: dict) -> dict:
@@ -525,6 +552,8 @@ class Env:
             rec["state"] = tags["state"]
         self._sink("metric", rec)
         self._hook_raises("metric")
+        if self.flavours:
+            return False                  # whatever a hook returns is of no consequence
 
     def on_log(self, event, fields) -> None:
         f = dict(fields)
@@ -570,7 +599,8 @@ class Env:
 
     def _val_id(self, v: Any) -> int:
         if v is None:
-            return NONE
+            nr = getattr(self, "none_result", None)
+            return nr.attempt if nr is not None else NONE
         for x in self.values:
             if v is x:
                 return x.attempt
@@ -642,12 +672,17 @@ def retry_kwargs(env: Env, cfg: dict, *, place: str = "call", atimeout: bool = F
         budget=env.make_budget(cfg["budget"], cfg.get("bW", 100000)) if cfg["budget"] != NONE else None,
     )
     _ = EC
-    if getattr(env, "flavours", None):
-        # any Mapping will do for the two tables
+    flav = getattr(env, "flavours", None)
+    env.owned = []          # containers the caller still owns: cleared once the objects are built
+    if flav:
+        # any Mapping will do for the two tables; the caller's own dicts may change afterwards
         from types import MappingProxyType
-        for key in ("strategies", "per_class_max_attempts"):
+        for i, key in enumerate(("strategies", "per_class_max_attempts")):
             if isinstance(ctor[key], dict):
-                ctor[key] = MappingProxyType(ctor[key])
+                if (cfg["maxAtt"] + i) % 2:
+                    ctor[key] = MappingProxyType(ctor[key])
+                else:
+                    env.owned.append(ctor[key])
     if atimeout:
         ctor["attempt_timeout_s"] = 500.0        # never fires: operations finish at once
     call: dict[str, Any] = dict(
@@ -669,6 +704,13 @@ def retry_kwargs(env: Env, cfg: dict, *, place: str = "call", atimeout: bool = F
     else:
         bsleep = env.before_sleep if cfg["bsleep"] else None
         sleeper = env.sleeper
+    if flav and not env.is_async:
+        # callables that are falsy objects (e.g. an empty recorder with __len__) are still callables
+        handler, bsleep, sleeper = (Falsy(handler) if handler else None, Falsy(bsleep) if bsleep else None,
+                                    Falsy(sleeper))
+        for key in ("on_metric", "on_log", "abort_if"):
+            if call.get(key) is not None:
+                call[key] = Falsy(call[key])
     if place == "both":
         # call-level callbacks must win over policy-level ones
         ctor.update(sleep=env.decoy_handler if handler else None,
@@ -679,6 +721,22 @@ def retry_kwargs(env: Env, cfg: dict, *, place: str = "call", atimeout: bool = F
         target = call if place == "call" else ctor
         target.update(sleep=handler, before_sleep=bsleep, sleeper=sleeper)
     return ctor, call
+
+
+class Falsy:
+    """a callable object that is falsy and empty"""
+
+    def __init__(self, fn) -> None:
+        self.fn = fn
+
+    def __call__(self, *a, **kw):
+        return self.fn(*a, **kw)
+
+    def __bool__(self) -> bool:
+        return False
+
+    def __len__(self) -> int:
+        return 0
 
 
 def drive(coro, on_suspend=None):
@@ -796,6 +854,8 @@ def run_scenario(cfg: dict, events: list[dict], *, entry: str, perm=None, place:
             from .policyenv import make_spy_breaker
             brk = make_spy_breaker(env, breaker_cfg)
         invokers = [make_entry(entry, env, ctor, call, brk), make_entry(entry, env, ctor, call, brk)]
+        for own in getattr(env, "owned", []):
+            own.clear()          # the policy objects must have taken copies
         for ci, run in enumerate(split_runs(events)):
             invoke = invokers[ci % 2]
             dl = next((e for e in run if e["e"] == "deliver"), {})
